@@ -1084,6 +1084,7 @@ impl C06 {
                     i.decline_diff = 3;
                 }
                 i.chained_diff = t.chance(1, 3);
+                i.implicit_max_len = t.chance(1, 3);
             }
             let n_routers = if sweep.is_some() { 1 } else if deep { 1 + t.weighted(&[3, 2, 1, 1, 1]) } else { 1 + t.weighted(&[3, 2, 1]) };
             let mut routers = Vec::new();
